@@ -122,6 +122,139 @@ theorem readall_each_once (ends : List Nat) (total cnt : Nat) (h : Snap ends tot
     (by have := List.length_filter_le (fun x => decide (0 < x)) ends; omega)
   exact ⟨cs, h1, by simpa using h2, h3⟩
 
+/-! ### the client's `File.Readdir(0)` -/
+
+private theorem sorted_split (b : Nat) : ∀ (l : List Nat), l.Pairwise (· < ·) →
+    l.filter (· ≤ b) ++ l.filter (b < ·) = l
+  | [], _ => rfl
+  | x :: l, hs => by
+    have hs' := (List.pairwise_cons.1 hs)
+    by_cases hx : x ≤ b
+    · have hnb : ¬ b < x := by omega
+      simp only [List.filter_cons, hx, hnb, decide_true, decide_false, if_true, List.cons_append]
+      simp only [Bool.false_eq_true, if_false]
+      rw [sorted_split b l hs'.2]
+    · have h1 : l.filter (· ≤ b) = [] := by
+        apply List.filter_eq_nil_iff.2
+        intro y hy; have := hs'.1 y hy; simp; omega
+      have h2 : l.filter (b < ·) = l := by
+        apply List.filter_eq_self.2
+        intro y hy; have := hs'.1 y hy; simp; omega
+      have hbx : b < x := by omega
+      simp only [List.filter_cons, hx, hbx, decide_true, decide_false, if_true]
+      simp only [Bool.false_eq_true, if_false, h1, h2, List.nil_append]
+
+/-- the records of a reply and what lies beyond it are what lies beyond its start -/
+private theorem records_then_rest (ends : List Nat) (hs : ends.Pairwise (· < ·)) (off c : Nat) :
+    recordsIn ends off c ++ ends.filter (off + c < ·) = ends.filter (off < ·) := by
+  have hsp := sorted_split (off + c) (ends.filter (off < ·)) (hs.sublist List.filter_sublist)
+  rw [List.filter_filter, List.filter_filter] at hsp
+  rw [← hsp]
+  unfold recordsIn
+  congr 1
+  · apply List.filter_congr; intro e _; by_cases h1 : off < e <;> by_cases h2 : e ≤ off + c <;> simp [h1, h2]
+  · apply List.filter_congr; intro e _; by_cases h1 : off + c < e <;> simp [h1]; omega
+
+private theorem last_is_max (m : Nat) : ∀ (l : List Nat) (d : Nat), l.Pairwise (· < ·) → m ∈ l →
+    (∀ e ∈ l, e ≤ m) → l.getLastD d = m
+  | [], _, _, hm, _ => by simp at hm
+  | x :: l, d, hs, hm, hle => by
+    have hs' := List.pairwise_cons.1 hs
+    rw [List.getLastD_cons]
+    by_cases hml : m ∈ l
+    · exact last_is_max m l x hs'.2 hml (fun e he => hle e (List.mem_cons_of_mem _ he))
+    · have hmx : m = x := by simpa [hml] using hm
+      have : l = [] := by
+        cases l with
+        | nil => rfl
+        | cons y l' =>
+          have h1 := hs'.1 y (by simp)
+          have h2 := hle y (by simp)
+          omega
+      subst this; simp [hmx]
+
+private theorem fewer_beyond (ends : List Nat) (off c : Nat) (hc : 0 < c) (hmem : off + c ∈ ends) :
+    (ends.filter (off + c < ·)).length < (ends.filter (off < ·)).length := by
+  have h1 : (ends.filter (off + c < ·)).length ≤ ((ends.filter (off < ·)).filter (off + c < ·)).length := by
+    rw [List.filter_filter]
+    apply Nat.le_of_eq; congr 1
+    apply List.filter_congr
+    intro e _
+    by_cases hh : off + c < e <;> simp [hh]; omega
+  have h2 : ((ends.filter (off < ·)).filter (off + c < ·)).length < (ends.filter (off < ·)).length := by
+    apply List.length_filter_lt_length_iff_exists.mpr
+    exact ⟨off + c, List.mem_filter.mpr ⟨hmem, by simp; omega⟩, by simp⟩
+  omega
+
+/-- `Readdir(0)` started at an offset the protocol allows returns, after what it already had,
+    every entry beyond that offset — each once, in listing order — and leaves the file offset
+    at the end of the directory. -/
+theorem client_readdir_from (ends : List Nat) (total cnt : Nat) (h : Snap ends total) (hfit : Fits ends cnt) :
+    ∀ (fuel off : Nat) (acc : List Nat), (off = 0 ∨ off ∈ ends) → (ends.filter (off < ·)).length < fuel →
+      readdir0 ends total cnt fuel off off acc = some (acc ++ ends.filter (off < ·), total) := by
+  intro fuel
+  induction fuel with
+  | zero => intro off _ _ hlt; omega
+  | succ fuel ih =>
+    intro off acc hoff hlt
+    rcases window_spec ends total off cnt h hoff with ⟨c, hc, hg⟩ | ⟨ht, hsm⟩
+    · obtain ⟨h1, h2, h3, h4, h5⟩ := hg
+      by_cases hc0 : c = 0
+      · subst hc0
+        have hot := h5 rfl
+        have hnone : ends.filter (off < ·) = [] := by
+          apply List.filter_eq_nil_iff.2
+          intro e he
+          obtain ⟨j, hj, hje⟩ := (mem_iff_getD ends e).1 he
+          have := h.le_total j hj
+          simp; omega
+        rw [readdir0, hc, hnone]; simp [hot]
+      · have hmem : off + c ∈ ends := by rcases h3 with hz | hm; exact absurd hz hc0; exact hm
+        have hlast : (recordsIn ends off c).getLastD off = off + c := by
+          apply last_is_max
+          · exact h.sorted.sublist List.filter_sublist
+          · unfold recordsIn; exact List.mem_filter.mpr ⟨hmem, by simp; omega⟩
+          · intro e he; unfold recordsIn at he; have := (List.mem_filter.1 he).2; simp at this; omega
+        have hrec := ih (off + c) (acc ++ recordsIn ends off c) (Or.inr hmem)
+          (by have := fewer_beyond ends off c (by omega) hmem; omega)
+        have : c = (c - 1) + 1 := by omega
+        rw [readdir0, hc]
+        rw [this] at hrec hlast ⊢
+        simp only [hlast, hrec, List.append_assoc]
+        rw [records_then_rest ends h.sorted]
+    · exfalso
+      obtain ⟨hlt2, hbig⟩ := hsm
+      have hne : ends ≠ [] := by
+        intro e; have := h.tot; rw [e] at this; simp at this; omega
+      have htm : total ∈ ends := by
+        rw [← h.total_mem hne]
+        exact (mem_iff_getD ends _).2 ⟨ends.length - 1, by
+          have : 0 < ends.length := List.length_pos_iff.mpr hne
+          omega, rfl⟩
+      obtain ⟨e', he', h1, h2⟩ := hfit off hoff total htm hlt2
+      have := hbig e' he' h1
+      omega
+
+/-- `Readdir(0)` on a freshly opened directory returns the complete listing — every entry
+    exactly once, in order, for any directory size — and a second call returns nothing more. -/
+theorem client_readdir_complete (ends : List Nat) (total cnt : Nat) (h : Snap ends total) (hfit : Fits ends cnt) :
+    readdir0 ends total cnt (ends.length + 1) 0 0 [] = some (ends, total) ∧ ends.Nodup ∧
+    ((total = 0 ∨ total ∈ ends) → readdir0 ends total cnt (ends.length + 1) total total [] = some ([], total)) := by
+  have hall : ends.filter (0 < ·) = ends := List.filter_eq_self.2 (fun e he => by simpa using h.pos e he)
+  refine ⟨?_, ?_, ?_⟩
+  · have := client_readdir_from ends total cnt h hfit (ends.length + 1) 0 [] (Or.inl rfl) (by rw [hall]; omega)
+    simpa [hall] using this
+  · exact h.sorted.imp (fun hab => Nat.ne_of_lt hab)
+  · intro ht
+    have hnone : ends.filter (total < ·) = [] := by
+      apply List.filter_eq_nil_iff.2
+      intro e he
+      obtain ⟨j, hj, hje⟩ := (mem_iff_getD ends e).1 he
+      have := h.le_total j hj
+      simp; omega
+    have := client_readdir_from ends total cnt h hfit (ends.length + 1) total [] ht (by rw [hnone]; simp)
+    simpa [hnone] using this
+
 /-! ### non-vacuity -/
 
 example : Snap [60, 130, 200] 200 := ⟨by decide, by decide, rfl⟩
@@ -130,5 +263,10 @@ example : window [60, 130, 200] 200 60 69 = .tooSmall := by decide
 example : window [60, 130, 200] 200 70 100 = .badOffset := by decide
 example : window [60, 130, 200] 200 100000 100 = .badOffset := by decide
 example : readAll [60, 130, 200] 200 140 4 0 = ([130, 70], true) := by decide
+example : readdir0 [60, 130, 200] 200 140 4 0 0 [] = some ([60, 130, 200], 200) := by decide
+example : Fits [60, 130, 200] 140 := by
+  intro o ho e he hlt
+  simp at ho he
+  rcases ho with rfl | rfl | rfl | rfl <;> rcases he with rfl | rfl | rfl <;> simp_all <;> omega
 
 end G9.C15
